@@ -173,6 +173,11 @@ fn check_dual<D: Dual>(t: &[u8], variant: usize) -> Result<&'static str, String>
 }
 
 pub fn check_one(t: &[u8], ty: usize, variant: usize) -> Result<&'static str, String> {
+    // a panic escaping from the library through any call below is a violation of this case, not a crash
+    guard_case(|| check_one_unguarded(t, ty, variant))
+}
+
+fn check_one_unguarded(t: &[u8], ty: usize, variant: usize) -> Result<&'static str, String> {
     match ty {
         0 => check_plain::<RawFuzzyHash>(t, variant),
         1 => check_plain::<LongRawFuzzyHash>(t, variant),
